@@ -75,19 +75,22 @@ class LogNormalCDF(Function):
         # Case 2: Entries of z that are very small
         if z_is_small.sum() > 0:
             z_where_z_is_small = z.masked_select(z_is_small)
-            numerator = torch.tensor(0.5641895835477550741, dtype=z.dtype, device=z.device)
-            numerator = numerator.expand_as(z_where_z_is_small)
-            denominator = torch.tensor(1.0, dtype=z.dtype, device=z.device)
-            denominator = denominator.expand_as(z_where_z_is_small)
+            # The approximation is a ratio of polynomials of degree 5 and 6 in x = -z / sqrt(2). Evaluate both in
+            # t = 1 / x (numerator = t * P(t), denominator = Q(t)): the powers of x overflow for very negative z
+            # (float32: z < -3.7e6), which made the value -inf / NaN although log Phi(z) is representable.
+            t = -math.sqrt(2) / z_where_z_is_small
+            numerator = torch.zeros_like(z_where_z_is_small)
+            for r_i in reversed(r.tolist()):
+                numerator = (numerator + r_i).mul(t)
+            numerator = (numerator + 0.5641895835477550741).mul(t)
 
-            for r_i in r:
-                numerator = -z_where_z_is_small.mul(numerator.div(math.sqrt(2))) + r_i
-
-            for q_i in q:
-                denominator = -z_where_z_is_small.mul(denominator.div(math.sqrt(2))) + q_i
+            denominator = torch.zeros_like(z_where_z_is_small)
+            for q_i in reversed(q.tolist()):
+                denominator = (denominator + q_i).mul(t)
+            denominator = denominator + 1.0
 
             e = numerator.div(denominator)
-            log_phi_z.masked_scatter_(z_is_small, torch.log(e / 2) - z_where_z_is_small.pow(2).div_(2))
+            log_phi_z.masked_scatter_(z_is_small, torch.log(e / 2) - z_where_z_is_small.mul(0.5).mul_(z_where_z_is_small))
 
             ctx.denominator = denominator
             ctx.numerator = numerator
@@ -106,7 +109,7 @@ class LogNormalCDF(Function):
         z_is_not_small = ~z_is_small
 
         if z_is_small.sum() > 0:
-            log_phi_z_grad[z_is_small] = torch.abs(ctx.denominator.div(ctx.numerator)).mul(math.sqrt(2 / math.pi))
+            log_phi_z_grad[z_is_small] = torch.abs(ctx.denominator.mul(math.sqrt(2 / math.pi)).div(ctx.numerator))
 
         exp = z[z_is_not_small].pow(2).div(-2).sub(log_phi_z[z_is_not_small]).add(math.log(0.5))
 
